@@ -716,11 +716,9 @@ size_t ZSTD_CCtx_setParameter(ZSTD_CCtx* cctx, ZSTD_cParameter param, int value)
 {
     DEBUGLOG(4, "ZSTD_CCtx_setParameter (%i, %i)", (int)param, value);
     if (cctx->streamStage != zcss_init) {
-        if (ZSTD_isUpdateAuthorized(param)) {
-            cctx->cParamsChanged = 1;
-        } else {
-            RETURN_ERROR(stage_wrong, "can only set params in cctx init stage");
-    }   }
+        RETURN_ERROR_IF(!ZSTD_isUpdateAuthorized(param), stage_wrong,
+                        "can only set params in cctx init stage");
+    }
 
     switch(param)
     {
@@ -770,7 +768,11 @@ size_t ZSTD_CCtx_setParameter(ZSTD_CCtx* cctx, ZSTD_cParameter param, int value)
 
     default: RETURN_ERROR(parameter_unsupported, "unknown parameter");
     }
-    return ZSTD_CCtxParams_setParameter(&cctx->requestedParams, param, value);
+    {   size_t const ret = ZSTD_CCtxParams_setParameter(&cctx->requestedParams, param, value);
+        /* a refused value changes nothing, including for the frame in progress */
+        if (!ZSTD_isError(ret) && cctx->streamStage != zcss_init) cctx->cParamsChanged = 1;
+        return ret;
+    }
 }
 
 size_t ZSTD_CCtxParams_setParameter(ZSTD_CCtx_params* CCtxParams,
